@@ -16,6 +16,11 @@ int64_t shim_write(const uint8_t *desc, uint64_t dlen, uint32_t block_size,
 		   int restart_interval, int flags, uint64_t min, uint64_t max,
 		   uint8_t *out, uint64_t cap);
 
+int64_t shim_stack_scan(const char *dir, int flags, int mode, const uint8_t *arg,
+			uint64_t idx, uint8_t *out, uint64_t cap);
+int64_t shim_stack_op(const char *dir, int flags, uint32_t block_size, int op,
+		      const uint8_t *desc, uint64_t dlen);
+
 static int unhex(const char *s, uint8_t **out)
 {
 	int n = strlen(s) / 2;
@@ -134,6 +139,21 @@ int main(int argc, char **argv)
 		printf("%lld ", (long long)n);
 		hex(out, n < 0 ? 0 : (n > (int64_t)cap ? (int)cap : (int)n));
 		printf("\n");
+	} else if (!strcmp(argv[1], "stackscan")) {
+		uint8_t *arg;
+		uint64_t cap = strtoull(argv[7], NULL, 10);
+		uint8_t *out = malloc(cap + 1);
+		int64_t n;
+		unhex(argv[5] + 1, &arg);
+		n = shim_stack_scan(argv[2], atoi(argv[3]), atoi(argv[4]), arg, strtoull(argv[6], NULL, 10), out, cap);
+		printf("%lld ", (long long)n);
+		hex(out, n < 0 ? 0 : (n > (int64_t)cap ? (int)cap : (int)n));
+		printf("\n");
+	} else if (!strcmp(argv[1], "stackop")) {
+		uint8_t *desc;
+		int dlen = unhex(argv[6] + 1, &desc);
+		int64_t r = shim_stack_op(argv[2], atoi(argv[3]), (uint32_t)strtoul(argv[4], NULL, 10), atoi(argv[5]), desc, dlen);
+		printf("%lld\n", (long long)r);
 	} else {
 		return 2;
 	}
